@@ -20,6 +20,7 @@ import (
 	"bytes"
 	"encoding/json"
 	"fmt"
+	"io/fs"
 	"os"
 	"path/filepath"
 	"regexp"
@@ -42,6 +43,7 @@ type c03Case struct {
 	Opts  int               `json:"opts"` // bit 0 tree dump, bit 1 code dump, bit 2 eval imports, bit 3 nil eval-imports map
 	XRets int               `json:"xrets,omitempty"`
 	NArgs int               `json:"nargs,omitempty"`
+	NilFS bool              `json:"nil_fs,omitempty"` // the host passes a nil fs.FS
 }
 
 func (k c03Case) options(w *bytes.Buffer) []goat.RunOption {
@@ -81,11 +83,15 @@ func (k c03Case) run() (verdict string, errText string) {
 		goat.VerifSetBudget(200000)
 		defer goat.VerifSetBudget(-1)
 		var err error
+		var hostFS fs.FS = sys
+		if k.NilFS {
+			hostFS = nil
+		}
 		switch k.Kind {
 		case "eval":
-			_, err = vm.Eval(sys, "main", k.Src, k.options(&dump)...)
+			_, err = vm.Eval(hostFS, "main", k.Src, k.options(&dump)...)
 		case "load":
-			err = vm.Load(sys, k.Arg, k.options(&dump)...)
+			err = vm.Load(hostFS, k.Arg, k.options(&dump)...)
 		case "call":
 			_, _ = vm.Eval(sys, "main", k.Src)
 			args := make([]goat.Value, k.NArgs)
@@ -275,8 +281,15 @@ func (c *Ctx) c03Cases(n int) []c03Case {
 			c.Rep.Count("eval-dump-rendering")
 		}
 	}
+	// no file system at all (the repository's own tests evaluate with a nil fs.FS): imports and loads find nothing
+	for _, src := range []string{"import \"fmt\"\nfmt.Println(1)", "import \"nosuch/none\"\nprintln(1)", "import (\n\"a\"\nb \"b/c\"\n)\nprintln(1)", "import 5", "println(1)"} {
+		cases = append(cases, c03Case{Kind: "eval", Src: src, NilFS: true, Opts: r.Intn(16)})
+	}
+	for _, arg := range []string{"main", "", ".", "x.go", "a/b", "../x"} {
+		cases = append(cases, c03Case{Kind: "load", Arg: arg, NilFS: true, Opts: r.Intn(16)})
+	}
 	for i := 0; i < n; i++ {
-		k := c03Case{Opts: r.Intn(16)}
+		k := c03Case{Opts: r.Intn(16), NilFS: r.Intn(12) == 0}
 		switch kind := r.Intn(100); {
 		case kind < 12: // raw bytes
 			k.Kind = "eval"
